@@ -65,6 +65,16 @@ def queries(tier):
             qs.append(Query("id-alloc-%s-%d" % (name, len(h)), "c18/idhash_step.c", env=IENV, tus=["core/list.c"],
                             defs={"HIST": hs, "OP": 5, "LO": "%dULL" % lo, "HI": "%dULL" % hi, "EXPECT_FULL": 0}, unwind=34, timeout=300,
                             params={"structure": "idhash", "op": "alloc", "range": [lo, hi], "history": hs}))
+    FTU = ["core/list.c", "core/pollable.c"]
+    FENV = ENV + ["env_aio.c"]
+    for cap in (0, 1, 2):
+        for n in (2, 3):
+            qs.append(Query("msgq-fifo-readers-cap%d-n%d" % (cap, n), "c18/msgq_fifo.c", tus=FTU, env=FENV, defs={"MODE": 1, "CAP": cap, "NG": n}, unwind=30, timeout=300,
+                            group="c18/msgq_fifo.c", params={"structure": "msgq", "case": "waiting readers served in order", "cap": cap, "readers": n}))
+            qs.append(Query("msgq-fifo-writers-cap%d-n%d" % (cap, n), "c18/msgq_fifo.c", tus=FTU, env=FENV, defs={"MODE": 2, "CAP": cap, "NP": n}, unwind=30, timeout=300,
+                            group="c18/msgq_fifo.c", params={"structure": "msgq", "case": "queue + blocked writers drain as one FIFO", "cap": cap, "writers": n}))
+        qs.append(Query("msgq-fifo-cancel-first-reader-cap%d" % cap, "c18/msgq_fifo.c", tus=FTU, env=FENV, defs={"MODE": 3, "CAP": cap, "NG": 2}, unwind=30, timeout=300,
+                        group="c18/msgq_fifo.c", params={"structure": "msgq", "case": "first waiting reader cancelled", "cap": cap}))
     MOPS = {"tryput": 1, "resize": 2, "close": 3, "fini": 4, "aioget": 5, "aioput": 6}
     MENV = ENV + ["env_aio.c"]
     MTU = ["core/list.c", "core/pollable.c"]
